@@ -78,10 +78,58 @@ def _iter(I, x):
     return x
 
 
+def range_to_arr(I, it):
+    """list(range(a, b, +-1)) with symbolic bounds: defined pointwise"""
+    a, b, st = it.parts
+    if st not in (1, -1):
+        raise Unsupported('symbolic range with step other than +1/-1')
+    n = to_z3(I.binop(ast.Sub(), b, a) if st == 1 else I.binop(ast.Sub(), a, b))
+    n = z3.simplify(z3.If(n < 0, 0, n))
+    k = z3.Int('k!rg')
+    return SArr(n, [z3.Lambda([k], to_z3(a) + st * k)], 'int', False)
+
+
+def seg_to_arr(I, s):
+    """a segmented list (items * count + ...) as a pointwise-defined list (elements: bool/int or fixed-size lists of them)"""
+    segs = s.segs if isinstance(s, SegList) else [(list(s), 1)]
+    first = next((items[0] for items, _ in segs if items), None)
+    if first is None:
+        raise Unsupported('empty segmented list')
+    tup = isinstance(first, (list, tuple))
+    width = len(first) if tup else 1
+    k = z3.Int('k!sg')
+    exprs = [None] * width
+    off = z3.IntVal(0)
+    total = z3.IntVal(0)
+    pieces = []
+    for items, c in segs:
+        ln = to_z3(I.binop(ast.Mult(), len(items), c))
+        pieces.append((off, ln, items))
+        off = off + ln
+    total = z3.simplify(off)
+    kind1 = None
+    for w in range(width):
+        e = None
+        for off_i, ln, items in reversed(pieces):
+            # element inside this piece: items[(k - off) mod len(items)]
+            inner = None
+            for j in range(len(items) - 1, -1, -1):
+                v = items[j][w] if tup else items[j]
+                zv = to_z3(v)
+                kind1 = kind_of_scalar(v)
+                inner = zv if inner is None else z3.If((k - off_i) % len(items) == j, zv, inner)
+            e = inner if e is None else z3.If(k < off_i + ln, inner, e)
+        exprs[w] = e
+    kind = ('tuple', [kind1] * width, None) if tup else kind1
+    return SArr(total, [z3.Lambda([k], e) for e in exprs], kind, False)
+
+
 @reg('list')
 def _list(I, x=None):
     if x is None:
         return []
+    if isinstance(x, _Iter) and x.kind == 'range' and not all(isinstance(p, int) for p in x.parts):
+        return range_to_arr(I, x)
     if isinstance(x, SArr):
         r = x.copy()
         r.np = False
